@@ -1,7 +1,11 @@
 (** Well-formed circular doubly linked lists over [next]/[prev] index
-    functions, and the proof that the three pointer primitives of cache.c
+    functions ([linked]); the three pointer primitives of cache.c
     ([CacheRing.remove_entry], [add_entry_after], [add_entry_before]) perform
-    exactly the list edits (remove an element / insert next to an element). *)
+    exactly the list edits (remove an element / insert next to an element);
+    following the pointers ([walk]/[chase]) over a segment; the composite
+    edits of cache.c with their [split] bookkeeping ([ring_remove_fix],
+    [ring_move_front], [ring_evict_probe], [ring_evict_prec]); the ring built
+    by cache_flush. *)
 From Coq Require Import List Bool Arith PeanoNat Lia Permutation.
 From KdV Require Import Cache.CacheList Cache.CacheLemmas Cache.CacheRing.
 Import ListNotations.
